@@ -20,7 +20,7 @@ import (
 //	FF                                           END
 //
 // args = n:u8 then per argument: 00 v:u64 | 01 len:u32 bytes | 02 len:u32 bytes ri:u32 closed:u8 pos:u64
-// | 03 cap:u32 len:u32 bytes pos:u64.
+// | 03 cap:u32 len:u32 bytes pos:u64 | 04 (NULL instead of an io_buffer*).
 type Script struct{ B []byte }
 
 func (s *Script) u8(v int)     { s.B = append(s.B, byte(v)) }
@@ -74,6 +74,10 @@ func (s *Script) Args(args []interp.Value) {
 			}
 		case interp.VIO:
 			b := a.IO
+			if b == nil {
+				s.u8(4) // NULL in place of the io_buffer*
+				continue
+			}
 			if b.Writer {
 				s.u8(3)
 				s.u32(len(b.Data))
